@@ -50,7 +50,8 @@ def run(ctx, driver):
                     rec.fail("waiting-although-connection-available", {}, payload)
                 if len(after) < c["maxc"]:
                     rec.fail("waiting-although-room", {}, payload)
-                if any(s.idle for s in after):
+                handed = {x for _r, x in impl["reqs"] if x is not None}
+                if any(s.idle and s.cid not in handed for s in after):
                     rec.fail("waiting-although-idle-evictable", {}, payload)
             else:
                 rec.dist["assigned"] += 1
